@@ -68,7 +68,7 @@ def replay(rep, case):
 
 
 def replay_history(rep, prop, c):
-    o = _run_history({"hist": c["history"], "translated": prop == "C07"})
+    o = _run_history({"hist": c["history"], "inspect": c.get("inspect", False), "translated": prop == "C07"})
     n = 6
     tcfg = corpus._cfg("Trace_SurveyObject.cfg", "SPECIFICATION TSpec\n" + SO_CFG % n + "CONSTRAINT Accepted\nCHECK_DEADLOCK FALSE\n")
     a, info = tlc.validate_traces("Trace_SurveyObject", tcfg, [o["trace"]], shards=1, env={"PROP": prop}, tag="replay")
@@ -104,10 +104,17 @@ def _run_history(job):
             if tr:
                 d.update(hint=lab("hint " + arg), bind={"constraint": ". != 'x'", "jr:constraintMsg": lab("msg " + arg)})
             q = create_survey_element_from_dict(d)
+            if job.get("inspect"):
+                q.get_xpath()          # looking at a detached element must not stick to it
             (s if op == "add_root" else grp).add_child(q)
             trace.append({"op": op, "name": arg})
             continue
-        ev = {"op": "render", "outcome": "ok", "unique_siblings": False, "binds_once": False, "controls_once": False, "closure": False,
+        if op == "mark":
+            q0 = next(c for c in s.children if c.name == "q0")
+            q0.bind["required"] = "yes"            # the caller edits the logic of one question through the object API
+            trace.append({"op": "mark", "name": arg})
+            continue
+        ev = {"op": "render", "outcome": "ok", "required_on": [], "unique_siblings": False, "binds_once": False, "controls_once": False, "closure": False,
               "refs_resolve": False, "same_ids": False, "has_refs": False}
         try:
             x = s.to_xml(validate=False, pretty_print=False)
@@ -116,6 +123,7 @@ def _run_history(job):
             binds = [b["nodeset"] for b in project.binds(root)]
             refs = [c["ref"] for c in project.body_preorder(root)]
             paths = {"/" + "/".join(p) for p in inst}
+            ev["required_on"] = [project.split_path(b["nodeset"])[1:] for b in project.binds(root) if "required" in b["attrs"]]
             ev.update(unique_siblings=len(inst) == len(set(inst)), binds_once=len(binds) == len(set(binds)), controls_once=len(refs) == len(set(refs)),
                       closure=all(b in paths for b in binds) and all(r in paths for r in refs))
             if tr:
@@ -130,7 +138,7 @@ def _run_history(job):
         except Exception as e:  # noqa: BLE001
             ev["outcome"] = "crash:" + type(e).__name__
         trace.append(ev)
-    return {"hist": job["hist"], "trace": trace}
+    return {"hist": job["hist"], "inspect": bool(job.get("inspect")), "trace": trace}
 
 
 def part_histories(rep, prop=None):
@@ -143,10 +151,10 @@ def part_histories(rep, prop=None):
     cfg = corpus._cfg("Gen_SurveyObject.cfg", "SPECIFICATION SOSpec\n" + SO_CFG % n + "INVARIANT AcceptedMeansUnambiguous\nCONSTRAINT Emit\nCHECK_DEADLOCK FALSE\n")
     cases, r = tlc.generate("Gen_SurveyObject", cfg, tag="genso", timeout=900)
     rep.add_mc(r, f"SurveyObject: histories of <= {n} builder-API operations (add child to root/group, render) on one Survey object; AcceptedMeansUnambiguous")
-    hists = [c["hist"] for c in cases if sum(1 for h in c["hist"] if h[0] == "render") >= 1]
+    hists = [c for c in cases if sum(1 for h in c["hist"] if h[0] == "render") >= 1]
     hists = corpus.pick(hists, 1500 if rep.tier == "quick" else 20000, rep.seed)
     rep.bounds["survey_object_histories"] = {"max_ops": n, "replayed": len(hists)}
-    outs = conv.map_cases(_run_history, [{"hist": h, "translated": prop == "C07"} for h in hists], chunksize=16)
+    outs = conv.map_cases(_run_history, [{"hist": h["hist"], "inspect": h.get("inspect", False), "translated": prop == "C07"} for h in hists], chunksize=16)
     for o in outs:
         if o.get("status") == "harness_error":
             raise tlc.MachineryError(o["message"] + "\n" + o.get("tb", ""))
@@ -155,10 +163,11 @@ def part_histories(rep, prop=None):
     rep.traces_validated += len(acc)
     rep.extra.setdefault("trace_runs", []).append({"source": "Survey-object histories (render / mutate / render)", "traces": len(outs), "accepted": len(acc), "wall_s": round(info["wall"], 1)})
     for i, o in enumerate(outs):
-        rep.case({"history": o["hist"]})
+        rep.case({"history": o["hist"], "inspect": o["inspect"]})
         if i not in acc:
             l, clause = info["progress"].get(i, (0, "unexplained_event"))
-            rep.violation(f"{prop}:history:{clause}", f"clause {clause} at step {l}; history={o['hist']} events={o['trace']}"[:600], {"history": o["hist"], "clause": clause, "translated": prop == "C07"})
+            rep.violation(f"{prop}:history:{clause}", f"clause {clause} at step {l}; history={o['hist']} inspect={o['inspect']} events={o['trace']}"[:600],
+                          {"history": o["hist"], "inspect": o["inspect"], "clause": clause, "translated": prop == "C07"})
     import copy
     base = next(o for i, o in enumerate(outs) if i in acc and any(e["op"] == "render" and e["outcome"] == "rejected" for e in o["trace"]))
     t = copy.deepcopy(base["trace"])
@@ -170,9 +179,18 @@ def part_histories(rep, prop=None):
         t2 = copy.deepcopy(b2["trace"])
         [e for e in t2 if e["op"] == "render" and e["outcome"] == "ok"][-1]["refs_resolve"] = False
         cans.append(t2)
+    if prop == "C05":
+        # an attribute given to one question showing up on another question's bind as well
+        b3 = next(o for i, o in enumerate(outs) if i in acc and any(e["op"] == "mark" for e in o["trace"]) and o["trace"][-1]["op"] == "render" and o["trace"][-1]["outcome"] == "ok"
+                  and o["trace"][-1]["required_on"])
+        t3 = copy.deepcopy(b3["trace"])
+        t3[-1]["required_on"].append(["grp", "g0"])
+        cans.append(t3)
     a, _ = tlc.validate_traces("Trace_SurveyObject", tcfg, cans + [base["trace"]], shards=1, env={"PROP": prop}, tag="canso")
     if any(i in a for i in range(len(cans))) or len(cans) not in a:
         raise tlc.MachineryError("survey-object canary failure")
     rep.extra.setdefault("canaries_rejected", []).append("ambiguous_tree_rendered_after_an_earlier_render")
     if prop == "C07":
         rep.extra["canaries_rejected"].append("dangling_itext_reference_after_a_second_render")
+    if prop == "C05":
+        rep.extra["canaries_rejected"].append("logic_attribute_leaked_to_another_bind")
